@@ -346,6 +346,8 @@ def builtin(e: Engine, st: State, name: str, args: List[SV], kw: Dict[str, SV], 
             return a
         if a.ty.kind == "set":
             return list_of_set(e, st, a)
+        if a.ty.kind == "seq":
+            return a
         raise Unsupported(f"{name}() of {a.ty}")
     if name == "set":
         if not args:
@@ -492,10 +494,13 @@ def sorted_(e: Engine, st: State, args, kw) -> SV:
     j = z3.Int(fresh_name("sj"))
     j2 = z3.Int(fresh_name("sj2"))
     st.assume(out.v.len == n)
-    st.assume(ForAllP([j], Implies(And(j >= 0, j < n), And(p(j) >= 0, p(j) < n, q(p(j)) == j,
-                                                            *[z3.Select(a, j) == z3.Select(b, p(j)) for a, b in zip(out.v.arrs, xs.v.arrs)])),
-                        patterns=[p(j)]))
-    st.assume(ForAllP([j], Implies(And(j >= 0, j < n), And(q(j) >= 0, q(j) < n, p(q(j)) == j)), patterns=[q(j)]))
+    body1 = Implies(And(j >= 0, j < n), And(p(j) >= 0, p(j) < n, q(p(j)) == j,
+                                            *[z3.Select(a, j) == z3.Select(b, p(j)) for a, b in zip(out.v.arrs, xs.v.arrs)]))
+    st.assume(ForAllP([j], body1, patterns=[p(j)]))
+    st.assume(ForAllP([j], body1, patterns=[z3.Select(out.v.arrs[0], j)]))
+    body2 = Implies(And(j >= 0, j < n), And(q(j) >= 0, q(j) < n, p(q(j)) == j))
+    st.assume(ForAllP([j], body2, patterns=[q(j)]))
+    st.assume(ForAllP([j], body2, patterns=[z3.Select(xs.v.arrs[0], j)]))
 
     def keyof(i):
         el = e.seq_get(out, i)
@@ -652,6 +657,8 @@ def method(e: Engine, st: State, tag, args: List[SV], kw, n: ast.Call) -> SV:
         if q in e.reg.contracts:
             return finish_call(e, st, q, [recv] + args, kw, n, [recv_node] + list(n.args))
         raise Unsupported(f"method {attr} on {recv.ty} (static class {cls})")
+    if k == "dictcomp" and attr == "values":
+        return dictcomp_values(e, st, recv)
     if k == "small" and attr == "add":
         new = SV(Ty("small"), list(recv.v) + [(And(*e.guards), args[0])])
         e.update_lvalue(recv_node, new, st)
@@ -872,6 +879,45 @@ def attr_call(e: Engine, st: State, tag, args, kw, n) -> SV:
         o = SV(OBJ("datetime"), z3.Const("NOW", Obj))
         return o
     raise Unsupported(f"call {tag}")
+
+
+def dictcomp_values(e: Engine, st: State, dc: SV) -> SV:
+    src, var, keynode = dc.v
+    out = fresh_sv(src.ty, "dedupe", optional=False)
+    e.wf(st, out)
+    wit = z3.Function(fresh_name("dwit"), z3.IntSort(), z3.IntSort())
+    rep = z3.Function(fresh_name("drep"), z3.IntSort(), z3.IntSort())
+    j, j2, i, i2 = (z3.Int(fresh_name(x)) for x in ("dj", "dj2", "di", "di2"))
+    n_, m_ = src.v.len, out.v.len
+
+    def key_of(seq, idx):
+        el = e.seq_get(seq, idx)
+        e.lambda_env.append({var: el})
+        sm, pr = e.spec_mode, e.pending_raises
+        e.spec_mode = True
+        try:
+            return e.ev(keynode, st)
+        finally:
+            e.lambda_env.pop()
+            e.spec_mode, e.pending_raises = sm, pr
+    # safety of evaluating the key for every element
+    kk = key_of(src, i)
+    kx, kx2, ko, ko2 = key_of(src, i), key_of(src, i2), key_of(out, j), key_of(out, j2)
+    eq = lambda a, b: e.equal(st, a, b)
+    st.assume(And(m_ <= n_, (m_ == 0) == (n_ == 0)))
+    b1 = Implies(And(j >= 0, j < m_), And(wit(j) >= 0, wit(j) < n_, rep(wit(j)) == j,
+                                          *[z3.Select(a, j) == z3.Select(b, wit(j)) for a, b in zip(out.v.arrs, src.v.arrs)]))
+    st.assume(ForAllP([j], b1, patterns=[wit(j)]))
+    st.assume(ForAllP([j], b1, patterns=[z3.Select(out.v.arrs[0], j)]))
+    b2 = Implies(And(i >= 0, i < n_), And(rep(i) >= 0, rep(i) < m_, eq(key_of(out, rep(i)), kx), wit(rep(i)) >= i))
+    st.assume(ForAllP([i], b2, patterns=[rep(i)]))
+    st.assume(ForAllP([i], b2, patterns=[z3.Select(src.v.arrs[0], i)]))
+    # last writer wins: no later input has the key of the kept element
+    st.assume(ForAllP([i, i2], Implies(And(i >= 0, i < n_, i2 > wit(rep(i)), i2 < n_), Not(eq(kx2, kx))), patterns=[z3.MultiPattern(rep(i), rep(i2))]))
+    st.assume(ForAllP([j, j2], Implies(And(j >= 0, j < j2, j2 < m_), Not(eq(ko, ko2)))))
+    out.tag = ("dedupe", src, wit, rep)
+    e.trust("E-DICT-DEDUPE: list({key(x): x for x in xs}.values()) keeps, for every key, the last element with that key; keys of the result are pairwise distinct")
+    return out
 
 
 def dict_values_of_metadata(e: Engine, st: State, md: SV) -> SV:
